@@ -109,9 +109,10 @@ Proof. intros Hy. unfold fold_val, reverse, where_. rewrite !Hy.
 Lemma scale_map {A} (c : R) (G : A -> entryR) L : scale c (map G L) = map (fun a => (c * ev (G a), em (G a))) L.
 Proof. unfold scale. apply map_map. Qed.
 Lemma arr_ev_scale s (c : R) (l : list entryR) j : arr_of s (map ev (scale c l)) 0 j = c * arr_of s (map ev l) 0 j.
-Proof. unfold arr_of, scale. rewrite map_map.
-  rewrite (nth_map_default (fun e : entryR => ev (c * ev e, em e)) l (ravel s j) (0, false) 0)
-    by (unfold ev; cbn [fst]; ring).
+Proof. unfold arr_of.
+  transitivity (nth (ravel s j) (map (fun e : entryR => c * ev e) l) 0).
+  { f_equal. unfold scale. rewrite map_map. reflexivity. }
+  rewrite (nth_map_default (fun e : entryR => c * ev e) l (ravel s j) (0, false) 0) by (unfold ev; cbn [fst]; ring).
   rewrite (nth_map_default (@ev R) l (ravel s j) (0, false) 0) by reflexivity. reflexivity. Qed.
 Lemma map_em_scale (c : R) (l : list entryR) : map em (scale c l) = map em l.
 Proof. unfold scale. rewrite map_map. reflexivity. Qed.
@@ -166,3 +167,40 @@ Section WithC09Fold.
     optimal_sfs_scaling (fold_c09 s) remask mf df (scale c m) d = optimal_sfs_scaling (fold_c09 s) remask mf df m d / c.
   Proof. apply ll_multinom_scale_invariant. apply fold_c09_scale. Qed.
 End WithC09Fold.
+
+(** ** the C09 model's own likelihood (Model/Fold.v [ll_ls], "Inference.ll folds the model automatically")
+    is the C11 likelihood run with the C09 fold *)
+Definition entries_of (a : lspec R) : list entryR := combine (ls_data a) (ls_mask a).
+
+Lemma map_fst_combine_eq {A B} (a : list A) (b : list B) : length a = length b -> map fst (combine a b) = a.
+Proof. revert b. induction a as [|x a IH]; intros [|y b] Hl; try discriminate; [reflexivity|].
+  cbn [combine map fst]. f_equal. apply IH. now injection Hl. Qed.
+Lemma map_snd_combine_eq {A B} (a : list A) (b : list B) : length a = length b -> map snd (combine a b) = b.
+Proof. revert b. induction a as [|x a IH]; intros [|y b] Hl; try discriminate; [reflexivity|].
+  cbn [combine map snd]. f_equal. apply IH. now injection Hl. Qed.
+
+Lemma ll_terms_is_msum (lg : R -> R) : forall (mm dm : list bool) (mv dv : list R),
+  ll_terms lg mm dm mv dv = Likelihood.msum (zipw (llpb_entry lg) (combine mv mm) (combine dv dm)).
+Proof. induction mm as [|a mm IH]; intros dm mv dv.
+  - destruct mv; reflexivity.
+  - destruct dm as [|b dm]; [destruct mv, dv; reflexivity|].
+    destruct mv as [|x mv]; [reflexivity|]. destruct dv as [|y dv]; [reflexivity|].
+    cbn [ll_terms]. rewrite IH. unfold zipw. cbn [combine map fst snd].
+    unfold llpb_entry at 2, ma_log, ev, em. cbn [fst snd]. rewrite msum_cons. numR.
+    destruct a, b, (Rleb x 0); cbn [orb]; numR; lra. Qed.
+
+Theorem ll_ls_is_C11_ll_with_C09_fold (lg : R -> R) (model data : lspec R) (v : R) :
+  length (ls_data model) = length (ls_mask model) ->
+  ll_ls lg model data = Some v ->
+  v = ll lg (fold_c09 (ls_shape model)) (ls_folded model) (ls_folded data) (entries_of model) (entries_of data).
+Proof. intros Hlen. unfold ll_ls, autofold, ll, ll_per_bin, auto_fold, fold_ls, entries_of.
+  destruct (ls_folded data) eqn:Ed, (ls_folded model) eqn:Em; cbn [andb negb ls_folded ls_data ls_mask Bool.eqb];
+    rewrite ?Em; cbn [Bool.eqb]; intros E; try discriminate; injection E as <-.
+  - apply ll_terms_is_msum.
+  - rewrite ll_terms_is_msum. unfold fold_c09.
+    replace (map ev (combine (ls_data model) (ls_mask model))) with (ls_data model)
+      by (symmetry; apply map_fst_combine_eq; exact Hlen).
+    replace (map em (combine (ls_data model) (ls_mask model))) with (ls_mask model)
+      by (symmetry; apply map_snd_combine_eq; exact Hlen).
+    reflexivity.
+  - apply ll_terms_is_msum. Qed.
